@@ -2082,6 +2082,7 @@ func runC18(ctx *Ctx) *Result {
 		var probe struct {
 			G3 *G3Case `json:"g3"`
 			O3 *O3Case `json:"o3"`
+			NG *NeGroups `json:"neGroups"`
 		}
 		if err := ReadReplay(ctx.Replay, &probe); err == nil && probe.G3 != nil {
 			runCisco3(ctx, res, drv)
@@ -2089,6 +2090,10 @@ func runC18(ctx *Ctx) *Result {
 		}
 		if probe.O3 != nil {
 			runOther3(ctx, res, drv, genName)
+			return res
+		}
+		if probe.NG != nil {
+			neGroupsCase(*probe.NG, res)
 			return res
 		}
 		var c Case
@@ -2126,6 +2131,7 @@ func runC18(ctx *Ctx) *Result {
 	}
 	runCisco3(ctx, res, drv)
 	runOther3(ctx, res, drv, genName)
+	runNonEmptyGroups(ctx.Rng.Fork(), ctx.N(120, 600), res)
 	if ctx.Thorough() {
 		for _, d := range []string{"asa", "ios", "linux", "panos"} {
 			exhaustive(d, runCase)
